@@ -59,7 +59,12 @@ CONFIGS += [
     {"name": "c-little", "lang": "c", "std": "c11", "endianness": "little"},
     {"name": "c-override", "lang": "c", "std": "c11", "override_varlen": True},
 ]
+# C++ with the documented "disable serialization buffer checks" knob of the capacity-override option actually used: every
+# type's up-front buffer check is compiled out (-D<T>_DISABLE_SERIALIZATION_BUFFER_CHECK_), so only the bounds-aware bitspan
+# stands between an undersized span and the memory behind it
+CPP_NOBUFCHECK = {"name": "cpp-c++17-nobufcheck", "lang": "cpp", "std": "c++17", "override_varlen": True, "disable_bufcheck": True}
 CONFIGS_THOROUGH = CONFIGS + [
+    CPP_NOBUFCHECK,
     {"name": "cpp-c++17-little", "lang": "cpp", "std": "c++17", "endianness": "little"},
     {"name": "cpp-c++14-asserts", "lang": "cpp", "std": "c++14", "asserts": True},
 ]
@@ -110,6 +115,7 @@ def directed_cases(seed: int, tier: str) -> typing.List[dict]:
     out = []
     for cfg in CONFIGS if tier == "quick" else CONFIGS_THOROUGH:
         out.append({"label": "directed-%s" % cfg["name"], "dsdl": DIRECTED_DSDL, "config": cfg, "ops_seed": [seed, PROP, "directed", cfg["name"]]})
+    out.append({"label": "directed-cpp-nobufcheck", "dsdl": DIRECTED_DSDL, "config": CPP_NOBUFCHECK, "ops_seed": [seed, PROP, "directed", "cpp-nobufcheck"]})
     out.append({"label": "directed-c-override-all-one", "dsdl": DIRECTED_DSDL, "config": [c for c in CONFIGS if c["name"] == "c-override"][0], "ops_seed": [seed, PROP, "directed", "c-override-all-one"], "defs_policy": "all-one"})
     for cfg in CONFIGS if tier == "quick" else CONFIGS_THOROUGH:
         if cfg["name"] in ("c", "cpp-c++14", "cpp-c++17", "cpp-c++17-pmr") or tier != "quick":
@@ -536,6 +542,15 @@ def run_case(case: dict, ctx: dict) -> dict:
         std = {"c++17-pmr": "c++17"}.get(cfg["std"], cfg["std"])
         if cfg.get("asserts"):
             defs.append("-DNUNAVUT_ASSERT(x)=assert(x)")
+        if cfg.get("disable_bufcheck"):
+            macros = set()
+            for d_, _, fs_ in os.walk(gen_dir):
+                for fn_ in fs_:
+                    if fn_.endswith(".hpp"):
+                        with open(os.path.join(d_, fn_), "r", encoding="utf-8") as f_:
+                            macros.update(re.findall(r"#ifndef (\w+_DISABLE_SERIALIZATION_BUFFER_CHECK_)", f_.read()))
+            defs += ["-D%s" % m for m in sorted(macros)]
+            exec_case["defs"] = list(defs)
         cmd = ["clang++", "-std=" + std] + san + defs + ["-I", gen_dir, "-I", work, os.path.join(HERE, "c04_codec", "harness.cpp"), "-o", exe]
     try:
         cp = subprocess.run(cmd, stdout=subprocess.PIPE, stderr=subprocess.PIPE, timeout=240, check=False)
@@ -558,7 +573,7 @@ def run_case(case: dict, ctx: dict) -> dict:
     else:
         r = Rng(*case["ops_seed"])
         n = case.get("n_ops") or (1500 if tier == "quick" else 12000)
-        ops = make_ops(r, types, n, is_c, counters["buffers"], full_cap_only=bool(cfg.get("override_varlen")), allow_null=not (cfg.get("asserts") and not is_c))
+        ops = make_ops(r, types, n, is_c, counters["buffers"], full_cap_only=bool(cfg.get("override_varlen")) and is_c, allow_null=not (cfg.get("asserts") and not is_c))
     exec_case["ops"] = ops
     script = os.path.join(work, "script.bin")
     write_script(script, ops)
